@@ -6,6 +6,10 @@ pub mod c02 {
         use super::P;
         include!("seqs_var.in");
     }
+    pub mod carries {
+        use super::P;
+        include!("seqs_len.in");
+    }
     pub mod fixed_tables {
         use super::P;
         include!("seqs_fixed.in");
